@@ -115,6 +115,45 @@ def mc_walk(name, cfg, consts=None, workers=8, threads=8, trace_every=0, timeout
     return {"name": name, "tlc": st, "walk": w, "violations": viols, "trace": trace}
 
 
+def mc_pipe(name, module, cfgtext, driver_args, summary_tag, workers=10, timeout=1500, expect_cases=None):
+    """Runs TLC on a stateless enumeration module whose ACTION_CONSTRAINT prints one case per
+    transition and pipes the cases into a harness driver.  Returns TLC stats, driver summary,
+    violations."""
+    ensure_dirs()
+    cfgpath = os.path.join(OUT, "cfg", "%s.cfg" % name)
+    open(cfgpath, "w").write(cfgtext)
+    meta = os.path.join(OUT, "tlc", name)
+    shutil.rmtree(meta, ignore_errors=True)
+    tlclog = os.path.join(OUT, "tlc", name + ".log")
+    viol = os.path.join(OUT, "tlc", name + ".viol")
+    tlc = ["timeout", str(timeout), "tlc", "-workers", str(workers), "-metadir", meta, "-cleanup", "-noGenerateSpecTE",
+           "-config", cfgpath, module + ".tla"]
+    t0 = time.time()
+    env = dict(os.environ, JAVA_TOOL_OPTIONS="-Xss512m")
+    p1 = subprocess.Popen(tlc, cwd=SPEC, stdout=subprocess.PIPE, stderr=subprocess.STDOUT, env=env)
+    p2 = subprocess.Popen([MV] + driver_args + ["--tlc-log", tlclog, "--viol", viol], stdin=p1.stdout, stdout=subprocess.PIPE, text=True)
+    p1.stdout.close()
+    out, _ = p2.communicate()
+    rc1 = p1.wait()
+    shutil.rmtree(meta, ignore_errors=True)
+    tlctext = open(tlclog).read() if os.path.exists(tlclog) else ""
+    st = parse_tlc_stats(tlctext)
+    st["wall_s"] = round(time.time() - t0, 1)
+    if rc1 == 124:
+        raise ToolError("TLC timed out on %s" % name)
+    if not st.get("completed"):
+        sys.stderr.write(tlctext[-3000:])
+        raise ToolError("TLC did not complete cleanly on %s: %s" % (name, st.get("errors")))
+    summ = None
+    for l in out.splitlines():
+        if l.startswith(summary_tag + " "):
+            summ = json.loads(l[len(summary_tag) + 1:])
+    if summ is None:
+        raise ToolError("driver produced no summary for %s" % name)
+    viols = [json.loads(l) for l in open(viol)] if os.path.exists(viol) else []
+    return {"name": name, "tlc": st, "summary": summ, "violations": viols}
+
+
 TRACE_CFG = """SPECIFICATION TraceSpec
 CONSTANTS
   MaxCols = 32
